@@ -85,7 +85,7 @@ def stepBS (line : String) : String :=
           | .dependencyInfo =>
             match DepInfo.parse c with
             | .ok acts => (DepInfo.numErrors acts, acts.filterMap fun
-                | .input s => some ("I:" ++ Hex.encode s)
+                | .input s => some ("I:" ++ Hex.encode (ShellDeps.depInfoKey wd s))
                 | .missing s => some ("M:" ++ Hex.encode s)
                 | .output s => some ("O:" ++ Hex.encode s)
                 | _ => none)
@@ -98,8 +98,57 @@ def stepBS (line : String) : String :=
     | _, _, _ => "bad-op"
   | _ => "bad-op"
 
+/-- one `deps:` entry of a `c11bsl` line: hex contents, or `x` = the file cannot be opened -/
+def fileOf (s : String) : Option ShellDeps.DepsFile :=
+  if s == "x" then some none else (Hex.decode s).map some
+
+/-- what the delegate sees while ONE file is processed: dependency-file diagnostics, "unable to open", discovered-dependency
+callbacks (kind:path) -/
+def fileReport (st : ShellDeps.DepsStyle) (wd : Bytes) : ShellDeps.DepsFile → Nat × Nat × List String
+  | none => (0, 1, [])
+  | some c =>
+    match st with
+    | .dependencyInfo =>
+      match DepInfo.parse c with
+      | .ok acts => (DepInfo.numErrors acts, 0, acts.filterMap fun
+          | .input s => some ("I:" ++ Hex.encode (ShellDeps.depInfoKey wd s))
+          | .missing s => some ("M:" ++ Hex.encode s)
+          | .output s => some ("O:" ++ Hex.encode s)
+          | _ => none)
+      | .error _ => (0, 0, [])
+    | _ =>
+      match MakeDeps.parse (st == .makefileIgnoringSubsequentOutputs) c with
+      | .ok acts => (MakeDeps.numErrors acts, 0, (MakeDeps.discovered wd acts).map fun p => "I:" ++ Hex.encode p)
+      | .error _ => (0, 0, [])
+
+/-- the loop of `processDiscoveredDependencies` as the delegate sees it: files are processed up to and including the first
+one for which `processFile` is not `true` -/
+def listReport (st : ShellDeps.DepsStyle) (wd : Bytes) : List ShellDeps.DepsFile → Nat × Nat × List String
+  | [] => (0, 0, [])
+  | f :: fs =>
+    let (e, o, d) := fileReport st wd f
+    match ShellDeps.processFile st f with
+    | .ok true => let (e', o', d') := listReport st wd fs; (e + e', o + o', d ++ d')
+    | _ => (e, o, d)
+
+/-- one build in which the shell command runs (its process succeeds) with a `deps:` LIST: `<style> <hex wd> <file>,<file>,...` -/
+def stepBSL (line : String) : String :=
+  match fields line with
+  | [style, wd, files] =>
+    match styleOf style, Hex.decode wd, (files.splitOn ",").mapM fileOf with
+    | some st, some wd, some fs =>
+      match ShellDeps.completion st fs, ShellDeps.discoveredKeys st wd fs with
+      | .ok status, .ok keys =>
+        let (errs, opens, deps) := listReport st wd fs
+        "status=" ++ (if status == .succeeded then "ok" else "failed") ++ " errors=" ++ toString errs ++ " open=" ++ toString opens ++
+          " deps=" ++ join deps ++ " keys=" ++ hexListEncode keys
+      | .error i, _ => "OOB-READ@" ++ toString i
+      | _, .error i => "OOB-READ@" ++ toString i
+    | _, _, _ => "bad-op"
+  | _ => "bad-op"
+
 def modes : List (String × Mode) :=
   [("c11makedeps", lineLoop stepMakeDeps), ("c11depinfo", lineLoop stepDepInfo),
-   ("c11resolve", lineLoop stepResolve), ("c11bs", lineLoop stepBS)]
+   ("c11resolve", lineLoop stepResolve), ("c11bs", lineLoop stepBS), ("c11bsl", lineLoop stepBSL)]
 
 end LLBuild.Drv.C11
